@@ -120,6 +120,27 @@ def run(env):
             env.violation("%s does not recover the plaintext on %s (n=%d): %s" % (c["op"], c["ctx"], len(c["args"][0]), str(o)[:60]), {"kind": "battery", "case": c, "out": o})
         if c.get("_notwant") is not None and o == c["_notwant"]:
             env.violation("joint decryption with %s still yields the plaintext on %s" % (c["tag"], c["ctx"]), {"kind": "battery", "case": c})
+    # each trustee is ONE Keymaker value serving the whole ciphertext list (with a repeated ciphertext at the end): the rows it
+    # releases must jointly decrypt every position, exactly as rows collected from fresh key holders do
+    reuse = [c for c in prep if 2 <= len(c["_sks"]) <= 4 and 1 <= len(c["_cs"]) <= 5 and not c["_ctx"].endswith(":23")][:10]
+    stq = []
+    for c in reuse:
+        cs2 = c["_cs"] + c["_cs"][:1]
+        for sk in c["_sks"]:
+            stq.append({"ctx": c["_ctx"], "op": "km_factor_seq", "args": [str(sk), cs2, "x:6b", script(r, 256 * len(cs2) + 512)], "tag": "keymaker-reuse"})
+    oq = env.harness(stq)
+    kq = 0; stj = []
+    for c in reuse:
+        cs2 = c["_cs"] + c["_cs"][:1]
+        rows = []
+        for sk in c["_sks"]:
+            o = oq[kq]; kq += 1
+            rows.append([x[0] for x in o] if isinstance(o, list) and all(isinstance(x, list) for x in o) else o)
+        stj.append({"ctx": c["_ctx"], "op": "joint_dec_many", "args": [rows, cs2], "_want": c["_ms"] + c["_ms"][:1], "tag": "joint_dec_many(keymaker-reuse)"})
+    for c, o in zip(stj, env.harness(stj)):
+        if o != c["_want"]:
+            env.violation("factors released by one Keymaker value per trustee for a ciphertext list do not jointly decrypt it on %s (n=%d): %s" % (c["ctx"], len(c["args"][0]), str(o)[:80]),
+                          {"kind": "battery", "case": c, "out": o})
     fails = env.tie(items, "C08", shard=300)
     # ristretto
     sks = ["11", "22", "33"]
